@@ -332,6 +332,8 @@ func ParseSliceHeader(nalu []byte, spsMap map[uint32]*SPS, ppsMap map[uint32]*PP
 		if pps.DeblockingFilterOverrideEnabledFlag {
 			sh.DeblockingFilterOverrideFlag = r.ReadFlag()
 		}
+		// slice_deblocking_filter_disabled_flag is inferred to be equal to pps_deblocking_filter_disabled_flag when not present
+		sh.DeblockingFilterDisabledFlag = pps.DeblockingFilterDisabledFlag
 		if sh.DeblockingFilterOverrideFlag {
 			sh.DeblockingFilterDisabledFlag = r.ReadFlag()
 			if !sh.DeblockingFilterDisabledFlag {
